@@ -502,6 +502,11 @@ func runR126(c *Ctx) {
 				if fa, ok := ld.X.(*ssa.FieldAddr); ok {
 					if ia, ok := fa.X.(*ssa.IndexAddr); ok {
 						idxOrigin = captureOrigin(a, ia.Index)
+					} else if org := captureOrigin(a, fa.X); org != nil {
+						// `backend := &ba.backends[index]` taken outside the literal and captured
+						if ia, ok := org.(*ssa.IndexAddr); ok {
+							idxOrigin = ia.Index
+						}
 					}
 				}
 			}
